@@ -451,6 +451,7 @@ func runC17(c *Cfg) {
 		for _, cc := range []int{0, 1, 3} {
 			for v := 0; v < 4; v++ {
 				lb = append(lb, &BigBatchCase{Family: "batch-per-item-outcomes", N: n, C: cc, ExecR: v&1 != 0, Builder: v&2 != 0, FailEvery: 11, FailAs: "error", ErrItemEvery: 5})
+				lb = append(lb, &BigBatchCase{Family: "batch-per-item-outcomes", N: n, C: cc, ExecR: true, Builder: v&2 != 0, FailEvery: 4, FailAs: "error-then-error-result", Retries: 2 + v%2}) // an error Result handed back on a retry is the item's outcome as it is
 			}
 		}
 	}
@@ -598,6 +599,7 @@ type BigBatchCase struct {
 	Stop      bool   `json:"stop,omitempty"`      // stop-on-error mode (sequential cases only: what was executed before the failure keeps its outcome)
 	NilEvery  int    `json:"nil_every,omitempty"` // > 0: items i with i%NilEvery == 1 succeed with a nil value
 	ErrItemEvery int `json:"err_item_every,omitempty"` // > 0: items i with i%ErrItemEvery == 4 arrive from prep as error Results: still items — exec is called for them and its outcome is their result
+	Retries   int    `json:"retries,omitempty"`   // > 0: per-item retry budget; FailAs "error-then-error-result": a failing item's first attempt returns (_, err), its later attempts (NewErrorResult(err), nil)
 	CancelAt  int    `json:"cancel_at,omitempty"` // > 0: the context is cancelled inside the exec of this item (sequential cases only)
 }
 
@@ -619,6 +621,8 @@ func runBigBatchCase(cs *BigBatchCase) (fs []finding) {
 	errItem := func(i int) bool { return cs.ErrItemEvery > 0 && i%cs.ErrItemEvery == 4 }
 	fails := func(i int) bool { return cs.FailEvery > 0 && i%cs.FailEvery == 3 && !errItem(i) }
 	outs := make([]*int, cs.N) // what exec returned for item i (a fresh pointer per item)
+	errOuts := make([]error, cs.N) // the error inside the error Result exec handed back for item i
+	attempts := make([]int, cs.N)
 	nilOut := func(i int) bool { return cs.NilEvery > 0 && i%cs.NilEvery == 1 && !fails(i) && !errItem(i) }
 	ctx, cancel := context.WithCancel(context.Background())
 	defer cancel()
@@ -660,8 +664,11 @@ func runBigBatchCase(cs *BigBatchCase) (fs []finding) {
 		}
 		i := it.Value().(int)
 		if fails(i) {
-			if cs.FailAs == "error-result" {
-				return flyt.NewErrorResult(&bigErr{i}), nil
+			attempts[i]++ // (one item is processed by one goroutine at a time)
+			if cs.FailAs == "error-result" || (cs.FailAs == "error-then-error-result" && attempts[i] > 1) {
+				e := &bigErr{i}
+				errOuts[i] = e
+				return flyt.NewErrorResult(e), nil // an error RESULT handed back with a nil error: the item's outcome, as it is
 			}
 			return flyt.Result{}, &bigErr{i}
 		}
@@ -695,6 +702,9 @@ func runBigBatchCase(cs *BigBatchCase) (fs []finding) {
 	}
 	if cs.Stop {
 		bn = bn.WithBatchErrorHandling(false)
+	}
+	if cs.Retries > 0 {
+		bn = bn.WithMaxRetries(cs.Retries)
 	}
 	var slots []flyt.Result
 	posts := 0
@@ -747,6 +757,8 @@ func runBigBatchCase(cs *BigBatchCase) (fs []finding) {
 			var be *bigErr
 			if !sl.IsError() || !errors.As(sl.Error(), &be) || be.I != i {
 				add("batch-large-slot-error", "exec failed for item %d of %d (concurrency %d); post received for it %s (IsError=%v) — not the outcome exec returned for that item", i, cs.N, cs.C, zoo.Describe(sl.Value()), sl.IsError())
+			} else if cs.ExecR && errOuts[i] != nil && sl.Error() != errOuts[i] {
+				add("batch-error-result-rewrapped", "exec handed back an error Result for item %d of %d (with a nil error, on attempt %d of %d permitted); the Result post received for it is an error, but its error %q is not the error value exec put into its Result (%q): the outcome was wrapped again", i, cs.N, attempts[i], maxInt(1, cs.Retries), sl.Error(), errOuts[i])
 			}
 			continue
 		}
